@@ -45,7 +45,8 @@ Section Plain.
     | FNodeAfterSave d _ u => is_main d && u
     | FExecStart d _ f | FExecAfterStart d _ f => is_main d && negb f
     | FExecDup _ => true
-    | FExecAfterBody d _ | FExecAfterErr d _ => is_main d
+    | FExecAfterBody d _ => is_main d
+    | FExecAfterErr d e => is_main d && is_Exception e
     | FExecAfterOk d _ v => is_main d && clean v
     | FRetry _ f _ _ => negb f
     | FRetryAfterBody _ _ _ | FRetryAfterEmit _ _ _ | FRetryAfterSleep _ _ _ => true
